@@ -14,6 +14,7 @@ mod pool;
 mod refs;
 mod selftest;
 mod signer;
+mod steer;
 mod util;
 
 use std::time::Instant;
